@@ -42,3 +42,10 @@ Theorem C18_collect : forall p m L fuel it, efi_inv m L it ->
          (seq 0 (N.to_nat (ei_entries it - ei_i it))), Val tt).
 Proof. exact efi_collect_spec. Qed.
 Print Assumptions C18_collect.
+
+(* the provided Iterator methods are iterated next(): nth(k) yields the k-th entry of the run to exhaustion
+   (with C18_collect: the descriptor at map offset (i + k) * d, or None when k is not below the remaining count) *)
+Theorem C18_nth : forall fuel p m it items k,
+  efi_collect fuel p m it = (items, Val tt) -> rmap fst (efi_nth p m it k) = Val (nth_error items k).
+Proof. exact efi_nth_collect. Qed.
+Print Assumptions C18_nth.
